@@ -149,7 +149,7 @@ class C17(Scenario):
     prop = "C17"
     level = "exploration"
     profiles = ["wrappers", "shared-memo", "shared-memo", "string-twin", "string-twin"]
-    budgets = {"quick": 8000, "thorough": 150000}
+    budgets = {"quick": 20000, "thorough": 400000}
     wall_caps = {"quick": 110, "thorough": 1500}
     rule = ("profile `wrappers`: all orders of named / cached / serializable (each subset, each permutation) on a "
             "function and on a string; `shared-memo`: one cached wrapper shared by several nodes of two trees, a seeded "
